@@ -372,6 +372,20 @@ def _mk():
                 seen += 1
         return False
 
+    def b_vars(it, a, k, n):
+        v = a[0] if a else None
+        if isinstance(v, ModV):
+            out_ = {}
+            for nm in v.info.names():
+                try:
+                    out_[nm] = v.info.get(nm)
+                except Exception:
+                    out_[nm] = Unknown("member")
+            return out_
+        if isinstance(v, Obj):
+            return v.attrs
+        raise Unsupported("vars() of this value")
+
     def b_format(it, a, k, n):
         return A.format_value(a[0])
 
@@ -431,6 +445,8 @@ def _mk():
         return "{" + _fmt(A._term(v)) + "}"
 
     def b_type(it, a, k, n):
+        if len(a) == 3 and isinstance(a[2], dict):
+            return it.dynamic_class(a[0], a[1], a[2], it.cur_mod)
         v = a[0]
         if v is None:
             return ExtV("builtins.NoneType")
@@ -486,10 +502,26 @@ def _mk():
         from .values import OneShot
 
         f = a[0]
-        return OneShot([it.call_function(f, list(xs), {}, n) for xs in zip(*seqs_of(it, a[1:]))])
+        out_ = []
+        for xs in zip(*seqs_of(it, a[1:])):
+            r_ = it.call_function(f, list(xs), {}, n)
+            if r_ is BOTTOM:
+                return BOTTOM  # the exception surfaces when the map object is consumed
+            out_.append(r_)
+        return OneShot(out_)
 
     def b_iter(it, a, k, n):
-        return a[0]
+        from .values import OneShot
+
+        v = a[0]
+        if isinstance(v, OneShot):
+            return v  # an iterator is its own iterator
+        m_it = it.dunder(v, "__iter__") if isinstance(v, Obj) else None
+        if m_it is not None:
+            return b_iter(it, [it.call_function(m_it, [], {}, n)], k, n)
+        if isinstance(v, (list, tuple, dict, set, frozenset, range, Shape)) or isinstance(v, A._DictItems):
+            return OneShot(it.concrete_iter(v))  # a fresh one-shot iterator over the current elements
+        return v
 
     def b_filter(it, a, k, n):
         from .values import OneShot
@@ -521,7 +553,7 @@ def _mk():
         "setattr": b_setattr, "reversed": b_reversed, "zip": b_zip, "enumerate": b_enumerate,
         "sorted": b_sorted, "str": b_str, "repr": b_str, "type": b_type, "callable": b_callable,
         "print": b_print, "any": b_any, "all": b_all, "round": b_round, "id": b_id, "map": b_map,
-        "iter": b_iter, "slice": b_slice, "filter": b_filter, "divmod": b_divmod, "next": b_next, "format": b_format,
+        "iter": b_iter, "slice": b_slice, "filter": b_filter, "divmod": b_divmod, "next": b_next, "format": b_format, "vars": b_vars,
         "staticmethod": b_staticmethod("staticmethod"), "classmethod": b_staticmethod("classmethod"),
         "property": b_staticmethod("property"), "issubclass": b_issubclass,
     }
